@@ -1,10 +1,133 @@
 /-
-  TwProofs.C01 — property theorems (see DESIGN.md, section 6).
+  TwProofs.C01 — expressions: typed arithmetic, and what the parse of an expression is.
+
+  `TwSpec.seval` is a token-free denotational semantics (wrapping 64-bit integers, IEEE doubles,
+  byte strings, same-typed operands only, no messages).  `eval_is_denotation`: the model's
+  evaluator — the transcription of evaluator.go that the correspondence check ties to the real
+  code — computes exactly these values and fails exactly where they do not exist.  The grouping
+  of operators is decided by the parser: the facts about its precedence table are obligations in
+  `TwProofs.Facts` (levels, precedences, the `parseExpression` call sites of F5); the theorems
+  below state the parser's one-step behaviour the property names (the right operand is parsed at
+  the operator's own level, the ternary's else part at LOWEST, an assignment's value at LOWEST,
+  the loop stops at a lower or equal level), and kernel-evaluated instances of whole renders.
 -/
 import TwModel
 import TwSpec
+import TwProofs.Lemmas.SpecSim
 
 namespace Tw.C01
-open Tw
+open Tw TwSpec
+
+/-! ### typed arithmetic -/
+
+/-- **the evaluator computes the denotational semantics** (any fuel, any environment, no custom
+    functions in play): a value is the specified value, an error means there is none -/
+theorem eval_is_denotation (fuel : Nat) (c : Ctx) (env : Env) (e : Expr) (hc : c.custom = []) (hw : Expr.wf e) :
+    (∀ v, evalExpr fuel c env e = .ok v → seval env e.toS = some v) ∧
+    (∀ code line args, evalExpr fuel c env e = .err code line args → seval env e.toS = none) := by
+  have := (eval_sim fuel).1 c env e hc hw
+  constructor
+  · intro v h; rw [h] at this; exact this
+  · intro code line args h; rw [h] at this; exact this
+
+/-- integers wrap at 64 bits (`Int64` arithmetic), e.g. the largest integer plus one -/
+theorem int_add_wraps (env : Env) (a c : Int64) :
+    seval env (.bin (b "+") (.int a) (.int c)) = some (.int (a + c)) := by
+  simp (config := { decide := true }) [seval, binOp, intOp]
+
+example : (9223372036854775807 : Int64) + 1 = -9223372036854775808 := by decide
+
+/-- integer division and modulo by zero have no value -/
+theorem int_div_mod_zero (env : Env) (a : Int64) :
+    seval env (.bin (b "/") (.int a) (.int 0)) = none ∧ seval env (.bin (b "%") (.int a) (.int 0)) = none := by
+  constructor <;> simp (config := { decide := true }) [seval, binOp, intOp]
+
+/-- operands of different types have no value, for every operator -/
+theorem mixed_types_have_no_value (op : Bytes) (l r : Val) (h : l.type ≠ r.type) : binOp op l r = none := by
+  cases l <;> cases r <;> simp_all [binOp, Val.type]
+
+/-- an unknown identifier has no value -/
+theorem unknown_identifier (env : Env) (n : Bytes) (h : env.get n = none) : seval env (.var n) = none := by
+  simp [seval, h]
+
+/-- an integer literal beyond 2^63 - 1 is rejected by the parser -/
+theorem int_literal_out_of_range (lit : Bytes) (h : 9223372036854775807 < digitsToNat lit) : parseInt64 lit = none := by
+  unfold parseInt64
+  simp only []
+  split
+  · rfl
+  · rw [if_neg (by omega)]
+
+/-! ### what the parser does with operators (one-step facts about the model's Pratt loop) -/
+
+/-- a binary operator's right operand is parsed at the operator's own precedence, so operators of
+    equal precedence group to the left and a tighter one to the right binds first -/
+theorem binary_right_operand_level (pe : Nat → PS → Expr × PS) (pl : TT → PS → List Expr × PS) (left : Expr) (p : PS)
+    (hop : isBinaryOp p.cur.ty = true) (hnb : p.next.curIs .RBRACES = false) :
+    infixBody pe pl left p = (.inf p.cur p.cur.lit left (pe p.curPrecedence p.next).1, (pe p.curPrecedence p.next).2) := by
+  unfold infixBody
+  rw [if_pos hop, if_neg (by rw [hnb]; simp)]
+
+/-- the loop of `parseExpression` goes on only while the next operator binds tighter than the
+    level it was called with: at a lower or equal level it hands the left operand back -/
+theorem loop_stops_at_lower_or_equal (fuel prec : Nat) (left : Expr) (p : PS) (h : ¬ prec < p.peekPrecedence) :
+    prattLoop (fuel + 1) prec left p = (left, p) := by
+  rw [prattLoop]
+  rw [if_pos (by simp [h])]
+
+/-- the ternary: the then-part is parsed at the TERNARY level (a nested `?` does not continue
+    it), the else-part at LOWEST (so a ternary nests to the right in its else part) -/
+theorem ternary_levels (pe : Nat → PS → Expr × PS) (pl : TT → PS → List Expr × PS) (left : Expr) (p : PS)
+    (hnb : isBinaryOp p.cur.ty = false) (hq : p.cur.ty = .QUESTION)
+    (hcolon : ((pe TERNARY p.next).2.expectPeek .COLON).1 = true) :
+    infixBody pe pl left p =
+      (.tern p.cur left (pe TERNARY p.next).1 (pe LOWEST ((pe TERNARY p.next).2.expectPeek .COLON).2.next).1,
+        (pe LOWEST ((pe TERNARY p.next).2.expectPeek .COLON).2.next).2) := by
+  unfold infixBody
+  rw [if_neg (by rw [hnb]; simp), if_pos (by rw [hq]; rfl), if_neg (by rw [hcolon]; simp)]
+
+/-- the value of an assignment is a complete expression: it is parsed at LOWEST -/
+theorem assignment_value_is_complete (pe : Nat → PS → Expr × PS) (p : PS)
+    (h1 : p.next.curIs .RBRACES = false) (h2 : (p.next.cur.ty == .IDENT && p.next.peekIs .ASSIGN) = true)
+    (h3 : (p.next.expectPeek .ASSIGN).2.next.curIs .RBRACES = false) :
+    parseEmbeddedCode pe p =
+      (.assign p.next.cur p.next.cur.lit (pe LOWEST (p.next.expectPeek .ASSIGN).2.next).1,
+        (pe LOWEST (p.next.expectPeek .ASSIGN).2.next).2) := by
+  unfold parseEmbeddedCode
+  simp only []
+  rw [if_neg (by rw [h1]; simp), if_pos h2, if_neg (by rw [h3]; simp)]
+
+/-- redundant parentheses: a parenthesised expression is the expression itself (no node is
+    made for the parentheses) -/
+theorem parentheses_make_no_node (pe : Nat → PS → Expr × PS) (pl : TT → PS → List Expr × PS)
+    (po : Token → List (Bytes × Expr) → PS → Expr × PS) (p : PS) (hlp : p.cur.ty = .LPAREN)
+    (hclose : ((pe LOWEST p.next).2.expectPeek .RPAREN).1 = true) :
+    prefixBody pe pl po p = some ((pe LOWEST p.next).1, ((pe LOWEST p.next).2.expectPeek .RPAREN).2) := by
+  unfold prefixBody
+  rw [hlp]
+  simp only []
+  rw [if_pos hclose]
+
+/-! ### whole renders, evaluated in the kernel (tests of the composed pipeline, labelled as such) -/
+
+def renders (src : String) (data : List (Bytes × GoVal)) (expect : String) : Bool :=
+  match evaluateStringPure [] (b src) data with
+  | .ok out => out == b expect
+  | _ => false
+
+def failsWith (src : String) (data : List (Bytes × GoVal)) (code : String) (args : List Bytes) : Bool :=
+  match evaluateStringPure [] (b src) data with
+  | .fail f => f.msg == formatMsg code args
+  | _ => false
+
+example : renders "{{ 1 + 2 * 3 }}|{{ 7 / 2 * 3 }}|{{ 10 - 4 - 3 }}|{{ (1 + 2) * 3 }}|{{ ((1)) + (((2))) }}" [] "7|9|3|9|3" = true := by
+  decide +kernel
+example : renders "{{ 3 == 1 + 2 }}|{{ 1 + 1 < 3 }}|{{ -2 * 3 }}|{{ true ? 1 : false ? 2 : 3 }}|{{ false ? 1 : false ? 2 : 3 }}" []
+    "1|1|-6|1|3" = true := by decide +kernel
+example : renders "{{ x = 1 + 2 * 3 }}{{ x }}|{{\n1\n+\n2\n}}" [] "7|3" = true := by decide +kernel
+example : renders "{{ 9223372036854775807 + 1 }}" [] "-9223372036854775808" = true := by decide +kernel
+example : failsWith "{{ 1 + \"a\" }}" [] "ErrTypeMismatch" [b "INTEGER", b "+", b "STRING"] = true := by decide +kernel
+example : failsWith "{{ 9223372036854775808 }}" [] "ErrCouldNotParseAs" [b "9223372036854775808", b "INT"] = true := by
+  decide +kernel
 
 end Tw.C01
